@@ -366,13 +366,13 @@ func (r *RdbReader) ReadZipmapItem(buf *util.SliceBuffer, readFree bool) []byte 
 }
 
 func readZipmapItemLength(buf *util.SliceBuffer, readFree bool) (int, int) {
+	// zipmap.c: a length below 254 (ZIPMAP_BIGLEN) is the byte itself, 254 is followed by
+	// a 4 byte little endian length, 255 ends the map; values carry one <free> byte
 	b := buf.ReadByte()
+	length := int(b)
 	switch b {
-	case 253:
-		s := buf.Slice(5)
-		return int(binary.BigEndian.Uint32(s)), int(s[4])
 	case 254:
-		panic(errors.Errorf("rdb: invalid zipmap item length"))
+		length = int(binary.LittleEndian.Uint32(buf.Slice(4)))
 	case 255:
 		return -1, 0
 	}
@@ -380,7 +380,7 @@ func readZipmapItemLength(buf *util.SliceBuffer, readFree bool) (int, int) {
 	if readFree {
 		free = buf.ReadByte()
 	}
-	return int(b), int(free)
+	return length, int(free)
 }
 
 func (r *RdbReader) CountZipmapItemsP(buf *util.SliceBuffer) int {
@@ -398,8 +398,8 @@ func (r *RdbReader) CountZipmapItems(buf *util.SliceBuffer) int {
 		buf.Seek(int64(strLen)+int64(free), 1)
 		n++
 	}
-	buf.Seek(0, 0)
-	return n
+	buf.Seek(1, 0) // back to the first pair, just after the <zmlen> byte
+	return n / 2   // number of field/value pairs
 }
 
 func moduleTypeNameByID(moduleId uint64) string {
